@@ -428,6 +428,47 @@ class AsHashEdges(Part):
         return res
 
 
+class AsSpellings(Part):
+    name = "as_numbers_in_every_spelling_int_accepts"
+    desc = "AS lists whose entries are written in every way int() accepts (blanks of Unicode around, sign, leading zeros, underscores, non-ASCII digits), alone and next to plainly written ones, on lines carrying the plain and the written form: every line still comes back"
+
+    def __init__(self, tier, seed):
+        self.tier, self.seed = tier, seed
+
+    def spellings(self, n):
+        import sys
+
+        blanks = [chr(c) for c in range(sys.maxunicode + 1) if chr(c).isspace()]
+        out = [n, "+" + n, "0" + n, "000" + n, n[:2] + "_" + n[2:], "+0" + n, " +" + n + " "]
+        out += [b + n for b in blanks] + [n + b for b in blanks] + [b + n + b for b in blanks[:6]]
+        for zero in (0xFF10, 0x0660, 0x0966, 0x1D7CE):
+            out.append("".join(chr(zero + int(d)) for d in n))
+        keep = []
+        for w in out:
+            try:
+                if int(w) == int(n) and w not in keep:
+                    keep.append(w)
+            except ValueError:
+                pass
+        return keep
+
+    def cases(self):
+        return [{"n": n, "with": w} for n in ("65001", "12", "4200000000") for w in ("alone", "after-plain", "before-plain")]
+
+    def run(self, case):
+        res = Res()
+        n = case["n"]
+        sp = self.spellings(n) if "spelling" not in case else [case["spelling"]]
+        for w in sp:
+            nums = {"alone": [w], "after-plain": ["64999", w], "before-plain": [w, "64999"]}[case["with"]]
+            lines = ["router bgp " + n, n, " neighbor 10.1.1.1 remote-as %s;" % n, "as-path %s_64999" % n,
+                     "router bgp" + w, "x %s y" % w, "hostname r1"]
+            judge(res, lines, "saltForTest", dict(anon_pwd=False, anon_ip=False, as_numbers=nums),
+                  {"n": n, "with": case["with"], "spelling": w}, "as-spelling|" + case["with"])
+        res.samples.append({"case": case, "spellings": len(sp)})
+        return res
+
+
 class ImagesThatLookSpecial(Part):
     name = "addresses_whose_image_is_a_mask_or_preserved"
     desc = "for every mask-shaped value M (and preserved-network member) the one address X with image M, on lines before and after lines that carry M itself, anonymize and undo: every line comes back"
@@ -548,4 +589,4 @@ class RunsThenTail(Part):
 
 def parts(tier, seed):
     return [ShortStrings(tier, seed), SlotFillers(tier, seed), LongRuns(tier, seed), Salts(tier, seed),
-            FileLevel(tier, seed), Volume(tier, seed), CaseVariants(tier, seed), AsHashEdges(tier, seed), ImagesThatLookSpecial(tier, seed), RunsThenTail(tier, seed)]
+            FileLevel(tier, seed), Volume(tier, seed), CaseVariants(tier, seed), AsHashEdges(tier, seed), AsSpellings(tier, seed), ImagesThatLookSpecial(tier, seed), RunsThenTail(tier, seed)]
